@@ -150,6 +150,8 @@ type world struct {
 	boundary    map[[3]string]bool
 	external    map[string]bool
 	goStmts     map[string]bool
+	timerOK     bool
+	timerDoc    []string
 	notes       []string
 	headed      bool
 	terminal    bool
@@ -243,7 +245,7 @@ func load() (*world, error) {
 		fieldAs: map[*types.Var][]valRef{}, summ: map[fkey][]Point{}, inprog: map[fkey]bool{},
 		sites: map[*types.Func][]callSite{}, litSumm: map[*ast.FuncLit][]Point{}, litProg: map[*ast.FuncLit]bool{},
 		notFollowed: map[[2]string]bool{}, boundary: map[[3]string]bool{}, external: map[string]bool{}, goStmts: map[string]bool{},
-		headed: true, terminal: true, termSeen: map[*ast.FuncDecl]bool{}, loopSeen: map[ast.Node]bool{},
+		headed: true, terminal: true, timerOK: true, termSeen: map[*ast.FuncDecl]bool{}, loopSeen: map[ast.Node]bool{},
 		mutexFree: map[string]bool{}, mutexDoc: map[string][]string{}}
 	exports := map[string]string{}
 	byDir := map[string]*listPkg{}
@@ -1145,11 +1147,18 @@ func (w *world) walkNode(n ast.Node, fr *frame) []Point {
 		}
 		switch x := n.(type) {
 		case *ast.GoStmt:
-			w.goStmts[fmt.Sprintf("%s: %s", w.rel(x.Pos()), w.text(x))] = true
+			joined := w.goJoined(fr, x)
+			w.goStmts[fmt.Sprintf("%s: %s (joined before the function returns: %v)", w.rel(x.Pos()), w.text(x), joined)] = true
+			if !joined {
+				// an activity that outlives the function that started it: the worker's return does not cover it.  (Its
+				// body is still walked in place below.)
+				add(x, 7, "", false, false)
+			}
 		case *ast.ForStmt:
 			if x.Init == nil && x.Post == nil && !w.loopSeen[x] {
 				w.loopSeen[x] = true
 				w.checkLoop(fr, x, x.Body)
+				w.checkTimers(fr, x)
 			}
 		case *ast.RangeStmt:
 			if t := info.TypeOf(x.X); t != nil {
@@ -1285,7 +1294,9 @@ func (w *world) walkNode(n ast.Node, fr *frame) []Point {
 						add(x, 5, w.mutexKey(fr, s.X), true, false)
 					}
 				case waitFns[fname]:
-					add(x, 6, fname, false, false)
+					// a WaitGroup that never leaves the declaration joins exactly the `go` statements of the declaration,
+					// whose bodies are walked in place: as good as their points
+					add(x, 6, fname, fname == "(*sync.WaitGroup).Wait" && w.localWaitGroup(fr, fun) != nil, false)
 				case fname == errgroupWait:
 					// the functions handed to g.Go are walked in place (literals) or followed (declared functions); the
 					// join is as good as they are - unless one of them is of unknown origin
@@ -1352,6 +1363,342 @@ func (w *world) errgroupInlined(fr *frame, waitFun ast.Expr) bool {
 		return true
 	})
 	return good && n > 0
+}
+
+// localWaitGroup: the receiver of a WaitGroup method call if it is a local variable of the enclosing declaration that is
+// used for nothing but Add / Done / Wait calls (so nobody else can Add to it)
+func (w *world) localWaitGroup(fr *frame, fun ast.Expr) types.Object {
+	s, ok := unparen(fun).(*ast.SelectorExpr)
+	if !ok || fr.body == nil {
+		return nil
+	}
+	id, ok := unparen(s.X).(*ast.Ident)
+	if !ok {
+		return nil
+	}
+	info := fr.pkg.info
+	o := info.Uses[id]
+	v, isVar := o.(*types.Var)
+	if !isVar || v.IsField() || fr.params[o] || (v.Pkg() != nil && v.Parent() == v.Pkg().Scope()) {
+		return nil
+	}
+	recvOK := map[*ast.Ident]bool{}
+	ast.Inspect(fr.body, func(n ast.Node) bool {
+		if c, ok := n.(*ast.CallExpr); ok {
+			if cs, ok := unparen(c.Fun).(*ast.SelectorExpr); ok {
+				if rid, ok := unparen(cs.X).(*ast.Ident); ok && info.Uses[rid] == o {
+					if fn, ok := w.staticCallee(info, c.Fun).(*types.Func); ok {
+						switch fn.FullName() {
+						case "(*sync.WaitGroup).Add", "(*sync.WaitGroup).Done", "(*sync.WaitGroup).Wait":
+							recvOK[rid] = true
+						}
+					}
+				}
+			}
+		}
+		return true
+	})
+	clean := true
+	ast.Inspect(fr.body, func(n ast.Node) bool {
+		if rid, ok := n.(*ast.Ident); ok && info.Uses[rid] == o && !recvOK[rid] {
+			clean = false
+		}
+		return true
+	})
+	if !clean {
+		return nil
+	}
+	return o
+}
+
+// goJoined: `go func() { defer wg.Done() … }()` with a local WaitGroup (see localWaitGroup) whose Wait is called later in the
+// same declaration (or deferred): the goroutine has returned when the declaration returns.
+func (w *world) goJoined(fr *frame, g *ast.GoStmt) bool {
+	lit, ok := unparen(g.Call.Fun).(*ast.FuncLit)
+	if !ok || fr.body == nil {
+		return false
+	}
+	info := fr.pkg.info
+	var wg types.Object
+	ast.Inspect(lit.Body, func(n ast.Node) bool {
+		if c, ok := n.(*ast.CallExpr); ok {
+			if fn, ok := w.staticCallee(info, c.Fun).(*types.Func); ok && fn.FullName() == "(*sync.WaitGroup).Done" {
+				if o := w.localWaitGroup(fr, c.Fun); o != nil {
+					wg = o
+				}
+			}
+		}
+		return true
+	})
+	if wg == nil {
+		return false
+	}
+	waited := false
+	ast.Inspect(fr.body, func(n ast.Node) bool {
+		switch x := n.(type) {
+		case *ast.FuncLit:
+			return false
+		case *ast.CallExpr:
+			if fn, ok := w.staticCallee(info, x.Fun).(*types.Func); ok && fn.FullName() == "(*sync.WaitGroup).Wait" {
+				if w.localWaitGroup(fr, x.Fun) == wg && x.Pos() > g.End() {
+					waited = true
+				}
+			}
+		case *ast.DeferStmt:
+			if fn, ok := w.staticCallee(info, x.Call.Fun).(*types.Func); ok && fn.FullName() == "(*sync.WaitGroup).Wait" {
+				if w.localWaitGroup(fr, x.Call.Fun) == wg {
+					waited = true
+				}
+			}
+		}
+		return true
+	})
+	return waited
+}
+
+// ---- timer-driven loops: `for { select { … case <-t.C: … } … }` with t a *time.Timer must re-arm t (t.Reset) on every path
+// from that case back to the head of the loop, otherwise the loop never fires again (it still stops promptly).
+
+func isTimerPtr(t types.Type) bool {
+	p, ok := t.(*types.Pointer)
+	if !ok {
+		return false
+	}
+	n, ok := p.Elem().(*types.Named)
+	return ok && n.Obj().Pkg() != nil && n.Obj().Pkg().Path() == "time" && n.Obj().Name() == "Timer"
+}
+
+func (w *world) exprObj(info *types.Info, e ast.Expr) types.Object {
+	switch x := unparen(e).(type) {
+	case *ast.Ident:
+		if o := info.Uses[x]; o != nil {
+			return o
+		}
+		return info.Defs[x]
+	case *ast.SelectorExpr:
+		if sel := info.Selections[x]; sel != nil && sel.Kind() == types.FieldVal {
+			return sel.Obj()
+		}
+	}
+	return nil
+}
+
+// resetsParam: the declared function re-arms its idx-th parameter by a Reset at the top level of its body (or hands it on
+// to a function that does)
+func (w *world) resetsParam(fn *types.Func, idx int, depth int) bool {
+	d, ok := w.decls[fn]
+	if !ok || d.fd.Body == nil || depth > 4 {
+		return false
+	}
+	var po types.Object
+	i := 0
+	if d.fd.Type.Params != nil {
+		for _, fl := range d.fd.Type.Params.List {
+			if len(fl.Names) == 0 {
+				i++
+				continue
+			}
+			for _, nm := range fl.Names {
+				if i == idx {
+					po = d.pkg.info.Defs[nm]
+				}
+				i++
+			}
+		}
+	}
+	if po == nil {
+		return false
+	}
+	for _, st := range d.fd.Body.List {
+		if w.stmtResets(d.pkg, st, po, depth) {
+			return true
+		}
+	}
+	return false
+}
+
+// stmtResets: the statement is (an assignment of / an expression statement of) t.Reset(…) or f(…, t, …) with f re-arming it
+func (w *world) stmtResets(pi *pkgInfo, st ast.Stmt, t types.Object, depth int) bool {
+	var calls []*ast.CallExpr
+	switch x := st.(type) {
+	case *ast.ExprStmt:
+		if c, ok := x.X.(*ast.CallExpr); ok {
+			calls = append(calls, c)
+		}
+	case *ast.AssignStmt:
+		for _, r := range x.Rhs {
+			if c, ok := r.(*ast.CallExpr); ok {
+				calls = append(calls, c)
+			}
+		}
+	}
+	for _, c := range calls {
+		fn, _ := w.staticCallee(pi.info, c.Fun).(*types.Func)
+		if fn == nil {
+			continue
+		}
+		if fn.FullName() == "(*time.Timer).Reset" {
+			if s, ok := unparen(c.Fun).(*ast.SelectorExpr); ok && w.exprObj(pi.info, s.X) == t {
+				return true
+			}
+		}
+		if isRepoPkg(fn.Pkg()) {
+			for i, a := range c.Args {
+				if w.exprObj(pi.info, a) == t && w.resetsParam(fn.Origin(), i, depth+1) {
+					return true
+				}
+			}
+		}
+	}
+	return false
+}
+
+func (w *world) checkTimers(fr *frame, loop *ast.ForStmt) {
+	info := fr.pkg.info
+	// the timers received from in a select at the top level of the loop body
+	timers := map[types.Object]string{}
+	for _, st := range loop.Body.List {
+		sel, ok := st.(*ast.SelectStmt)
+		if !ok {
+			continue
+		}
+		for _, c := range sel.Body.List {
+			cc := c.(*ast.CommClause)
+			if cc.Comm == nil {
+				continue
+			}
+			if u := recvOf(cc.Comm); u != nil {
+				if s, ok := unparen(u.X).(*ast.SelectorExpr); ok && s.Sel.Name == "C" {
+					if t := info.TypeOf(s.X); t != nil && isTimerPtr(t) {
+						if o := w.exprObj(info, s.X); o != nil {
+							timers[o] = w.text(s.X)
+						}
+					}
+				}
+			}
+		}
+	}
+	for t, name := range timers {
+		var bad []string
+		var flow func(list []ast.Stmt, cur bool, inSwitch bool) (bool, bool)
+		var one func(st ast.Stmt, cur bool, inSwitch bool) (bool, bool)
+		merge := func(outs [][2]bool) (bool, bool) {
+			cur, falls := true, false
+			for _, o := range outs {
+				if o[1] {
+					falls = true
+					cur = cur && o[0]
+				}
+			}
+			return cur, falls
+		}
+		one = func(st ast.Stmt, cur bool, inSwitch bool) (bool, bool) {
+			switch x := st.(type) {
+			case *ast.LabeledStmt:
+				return one(x.Stmt, cur, inSwitch)
+			case *ast.ExprStmt, *ast.AssignStmt:
+				if w.stmtResets(fr.pkg, st, t, 0) {
+					return true, true
+				}
+				if es, ok := st.(*ast.ExprStmt); ok {
+					if c, ok := es.X.(*ast.CallExpr); ok {
+						if id, ok := c.Fun.(*ast.Ident); ok && id.Name == "panic" {
+							return cur, false
+						}
+					}
+				}
+				return cur, true
+			case *ast.ReturnStmt:
+				return cur, false
+			case *ast.BranchStmt:
+				switch x.Tok {
+				case token.CONTINUE:
+					if !cur {
+						bad = append(bad, fmt.Sprintf("`continue` at %s", w.rel(x.Pos())))
+					}
+					return cur, false
+				case token.BREAK:
+					if inSwitch && x.Label == nil {
+						return cur, true // leaves the switch / select only
+					}
+					return cur, false
+				}
+				return cur, false
+			case *ast.BlockStmt:
+				return flow(x.List, cur, inSwitch)
+			case *ast.IfStmt:
+				if x.Init != nil {
+					cur, _ = one(x.Init, cur, inSwitch)
+				}
+				c1, f1 := flow(x.Body.List, cur, inSwitch)
+				c2, f2 := cur, true
+				if x.Else != nil {
+					c2, f2 = one(x.Else, cur, inSwitch)
+				}
+				return merge([][2]bool{{c1, f1}, {c2, f2}})
+			case *ast.SwitchStmt, *ast.TypeSwitchStmt:
+				var body *ast.BlockStmt
+				if sw, ok := x.(*ast.SwitchStmt); ok {
+					body = sw.Body
+				} else {
+					body = x.(*ast.TypeSwitchStmt).Body
+				}
+				var outs [][2]bool
+				hasDefault := false
+				for _, c := range body.List {
+					cc := c.(*ast.CaseClause)
+					if cc.List == nil {
+						hasDefault = true
+					}
+					c1, f1 := flow(cc.Body, cur, true)
+					outs = append(outs, [2]bool{c1, f1})
+				}
+				if !hasDefault {
+					outs = append(outs, [2]bool{cur, true})
+				}
+				return merge(outs)
+			case *ast.SelectStmt:
+				var outs [][2]bool
+				for _, c := range x.Body.List {
+					cc := c.(*ast.CommClause)
+					start := cur
+					if cc.Comm != nil {
+						if u := recvOf(cc.Comm); u != nil {
+							if s, ok := unparen(u.X).(*ast.SelectorExpr); ok && s.Sel.Name == "C" && w.exprObj(info, s.X) == t {
+								start = false // the timer has fired: it is no longer armed
+							}
+						}
+					}
+					c1, f1 := flow(cc.Body, start, true)
+					outs = append(outs, [2]bool{c1, f1})
+				}
+				return merge(outs)
+			case *ast.ForStmt, *ast.RangeStmt:
+				return cur, true // an inner loop: what it does to the timer is not relied upon
+			}
+			return cur, true
+		}
+		flow = func(list []ast.Stmt, cur bool, inSwitch bool) (bool, bool) {
+			for _, st := range list {
+				var f bool
+				cur, f = one(st, cur, inSwitch)
+				if !f {
+					return cur, false
+				}
+			}
+			return cur, true
+		}
+		cur, falls := flow(loop.Body.List, true, false)
+		if falls && !cur {
+			bad = append(bad, "end of the loop body")
+		}
+		if len(bad) > 0 {
+			w.timerOK = false
+			w.timerDoc = append(w.timerDoc, fmt.Sprintf("%s (%s): timer %s is not re-armed before %s", w.rel(loop.Pos()), fr.fnName, name, strings.Join(bad, ", ")))
+		} else {
+			w.timerDoc = append(w.timerDoc, fmt.Sprintf("%s (%s): timer %s re-armed on every path", w.rel(loop.Pos()), fr.fnName, name))
+		}
+	}
 }
 
 // checkLoop: a `for {…}` / `for cond {…}` / `for range ch {…}` whose body (calls followed) can park the goroutine must
@@ -1922,7 +2269,26 @@ func Facts() (string, error) {
 	}
 	sort.Strings(gos)
 	pf("/-- `go` statements met on the walks (their bodies are walked in place: conservative) -/\ndef goStmts : List String := %s\n", strs(gos))
-	pf("/-- blocking points: (loop code, kind, channel code, flag) - kind 0 ctxSelect (a select with a case on a context DERIVED\n from the node context), 1 sleep (flag = constant / configuration duration / min of those), 2 send, 3 recv (flag = inside a\n select with such a ctx case or a default), 4 plain send on errCh, 5 mutex Lock/RLock (channel = mutex code, flag = no\n critical section of it can park its holder), 6 join: WaitGroup.Wait / Cond.Wait (flag false) or errgroup Wait (flag = all\n joined functions are walked in place).  `for range ch` and `select {}` are plain receives.\n Channel codes: 0 errCh 1 headerInCh 2 dataInCh 3 headerStoreCh 4 dataStoreCh 5 retrieveCh 6 daIncluderCh 7 txNotifyCh\n 8 timer 9 never, >=100 local. -/\n")
+	giw := map[[2]string]bool{}
+	for _, c := range codes {
+		for _, p := range t.Workers[c] {
+			if p.Kind == 7 {
+				giw[[2]string{t.Names[c], fmt.Sprintf("%s (%s): %s", w.rel2(p), p.Fn, p.Src)}] = true
+			}
+		}
+	}
+	pf("/-- `go` statements reachable from a worker whose goroutine is NOT joined before the function that starts it returns\n (joined = a WaitGroup local to that function is waited for; an errgroup is not a `go` statement and is a join point): the\n worker's return - which is all that Run's wg.Wait() sees - does not cover that activity.  (loop, where)  Spec.C13 requires `[]`. -/\n")
+	pf("def goStmtsInWorkers : List (String × String) := %s\n", pairs(giw))
+	sort.Strings(w.timerDoc)
+	var tdoc []string
+	for i, d := range w.timerDoc {
+		if i == 0 || d != w.timerDoc[i-1] {
+			tdoc = append(tdoc, d)
+		}
+	}
+	pf("/-- every `for { select { … case <-t.C: … } … }` met on the walks with t a *time.Timer re-arms t (t.Reset, directly or through a\n function it is handed to) on every path from that case back to the head of the loop -/\n")
+	pf("def timerLoopsRearmOnEveryPath : Bool := %s\ndef timerLoopsDoc : List String := %s\n", hx.LeanBool(w.timerOK), strs(tdoc))
+	pf("/-- blocking points: (loop code, kind, channel code, flag) - kind 0 ctxSelect (a select with a case on a context DERIVED\n from the node context), 1 sleep (flag = constant / configuration duration / min of those), 2 send, 3 recv (flag = inside a\n select with such a ctx case or a default), 4 plain send on errCh, 5 mutex Lock/RLock (channel = mutex code, flag = no\n critical section of it can park its holder), 6 join: WaitGroup.Wait / Cond.Wait (flag false) or errgroup Wait (flag = all\n joined functions are walked in place), 7 spawn: a `go` statement that is not joined.  `for range ch` and `select {}` are\n plain receives.\n Channel codes: 0 errCh 1 headerInCh 2 dataInCh 3 headerStoreCh 4 dataStoreCh 5 retrieveCh 6 daIncluderCh 7 txNotifyCh\n 8 timer 9 never, >=100 local. -/\n")
 	pf("def points : List (Nat × Nat × Nat × Bool) := [\n")
 	first := true
 	var doc []string
@@ -1953,7 +2319,7 @@ func Facts() (string, error) {
 				flag = w.mutexFree[p.CName]
 			}
 			pf("  (%d, %d, %d, %s)", c, p.Kind, ch, hx.LeanBool(flag))
-			kind := []string{"ctxSelect", "sleep", "send", "recv", "errSend", "lock", "join"}[p.Kind]
+			kind := []string{"ctxSelect", "sleep", "send", "recv", "errSend", "lock", "join", "spawn"}[p.Kind]
 			doc = append(doc, fmt.Sprintf("(%q, %q, %q, %q, %q, %s, %q)", t.Names[c], p.Fn, w.rel2(p), kind, p.CName, hx.LeanBool(flag), p.Src))
 		}
 	}
